@@ -42,6 +42,10 @@ DAMAGE_BYTES: Dict[str, Tuple[str, Optional[bytes]]] = {
 }
 
 
+class SkipExecution(Exception):
+    """This schedule makes the scenario's program meaningless (not a verdict, not a machinery failure)."""
+
+
 @dataclass
 class ActorSpec:
     name: str
@@ -307,7 +311,9 @@ class Execution:
         for p, i in self.env.ids.file.items():
             if i == fid:
                 return p
-        raise MachineryError(f"no file with id {fid}")
+        # the program refers to a file an earlier operation of the same schedule never wrote (that operation was failed by an
+        # injected fault): the rest of the program is meaningless, the execution is dropped
+        raise SkipExecution(f"no file with id {fid}")
 
     def _file_ref(self, ref: Sequence[Any]) -> int:
         if ref[0] == "init":
@@ -319,14 +325,17 @@ class Execution:
             k = int(who[1])
             return self.init_sids[k - 1] if 0 < k <= len(self.init_sids) else None
         want_lo = self.scn.idx(who[0]) * 1000 + int(who[1]) * 100
-        best = None
-        for raw, cid in self.env.ids.sid.items():
-            if want_lo <= cid < want_lo + 100 and (best is None or cid > best[1]):
-                best = (raw, cid)
-        # only a committed snapshot counts (the spec consults sidOfOp, set at the pointer flip)
-        if best is None or (who[0], int(who[1])) not in self.acked_ops:
+        # only a committed snapshot counts, and "committed" is the pointer flip (the spec consults sidOfOp, set there) -
+        # not the caller's acknowledgement, which may still be outstanding when another actor refers to the snapshot
+        flipped = [e["name"]["u"] for e in self.env.sched.trace
+                   if e["k"] == "FlipHint" and e.get("ok") and e.get("a") == who[0] and want_lo <= e["name"]["u"] < want_lo + 100]
+        if not flipped:
             return None
-        return best[0]
+        cid_want = flipped[-1] + 1
+        for raw, cid in self.env.ids.sid.items():
+            if cid == cid_want:
+                return raw
+        return None
 
     def _actor_body(self, spec: ActorSpec) -> Callable[[], Any]:
         env = self.env
@@ -437,7 +446,7 @@ class Execution:
                     res = "cme"
                 except AmbiguousCommitError:
                     res = "ambiguous"
-                except MachineryError:
+                except (MachineryError, SkipExecution):
                     raise
                 except Exception as e:  # noqa: BLE001 - the operation's outcome
                     if type(e).__name__ == "GarbageCollectionAborted":
@@ -475,6 +484,8 @@ class Execution:
         for a in s.actors.values():
             if a.error is not None and isinstance(a.error, MachineryError):
                 raise a.error
+            if a.error is not None and isinstance(a.error, SkipExecution):
+                return {"skip": True, "init": self.init_obs, "events": [], "decisions": [], "outcomes": {}, "errors": {}, "harness_error": None}
             if a.error is not None:
                 err = (err or "") + f" actor {a.name} died: {type(a.error).__name__}: {a.error}\n{getattr(a, 'tb', '')}"
         final = self.observe()
@@ -808,5 +819,7 @@ def close_pool() -> None:
 def run_many(scn: Scenario, jobs: List[Tuple[str, Any]], parallel: bool = True) -> List[Dict[str, Any]]:
     args = [(scn, k, p) for k, p in jobs]
     if parallel and len(jobs) > 24:
-        return pool().map(_worker_run, args, chunksize=max(1, len(args) // 48))
-    return [_worker_run(a) for a in args]
+        out = pool().map(_worker_run, args, chunksize=max(1, len(args) // 48))
+    else:
+        out = [_worker_run(a) for a in args]
+    return [t for t in out if not t.get("skip")]
